@@ -5,6 +5,7 @@ Particles are looked up through an oracle (`particle_from_string_name` of the re
 each operation): a name is mapped to a key identifying the particle.  Import-free.
 -/
 import DL.Model.Chain
+import DL.Model.Perm
 namespace DL
 
 /-- `decay : particle (decaytype? subdecay)?` after the transformer -/
@@ -88,10 +89,6 @@ def chainOfLine (lookup : String → Option String) (cartesian : Bool) (l : ALin
   | .ok (.mk n p s ls _ ds, seen) =>
     .ok (.mk n p s ls (some (lineFix l.flag1 l.flag2, cartesian, l.val1, l.val2, l.err1, l.err2)) ds, seen)
 
-def cartesianC {α : Type} : List (List α) → List (List α)
-  | [] => [[]]
-  | l :: ls => l.flatMap (fun a => (cartesianC ls).map (a :: ·))
-
 /-- `expand_lines(linelist)`: dead-end daughters are replaced by every expansion of the lines written
     separately under that name; returns the expansions and the final particles met (in order) -/
 def expandLines (linelist : List AChain) : Nat → AChain → Except AmpErr (List AChain × List String)
@@ -101,7 +98,7 @@ def expandLines (linelist : List AChain) : Nat → AChain → Except AmpErr (Lis
       match c.ds.mapM (expandLines linelist f) with
       | .error e => .error e
       | .ok rs =>
-        .ok ((cartesianC (rs.map (·.1))).map c.withDs, (rs.map (·.2)).flatten)
+        .ok ((cartesian (rs.map (·.1))).map c.withDs, (rs.map (·.2)).flatten)
     else
       match (linelist.filter (fun ln => ln.name == c.name)).mapM (expandLines linelist f) with
       | .error e => .error e
@@ -136,30 +133,63 @@ structure ResetPolicy where
   cartesian : Bool
   deriving Repr, DecidableEq, Inhabited
 
+def stEvent : AStmt → Option (List String)
+  | .eventType ns => some ns
+  | _ => none
+def stFcs : AStmt → Option Nat
+  | .fastCoherentSum n => some n
+  | _ => none
+def stVariable : AStmt → Option (String × Bool × String × String)
+  | .variable n f v e => some (n, decide (f > 0), v, e)
+  | _ => none
+def stConstant : AStmt → Option (String × String)
+  | .constant n v => some (n, v)
+  | _ => none
+def stLine : AStmt → Option ALine
+  | .line l => some l
+  | _ => none
+
+/-- the parameter table: one row per parameter line, in order -/
+def parsOf (stmts : List AStmt) : List (String × Bool × String × String) := stmts.filterMap stVariable
+/-- the constants table: one row per constant line, in order -/
+def constsOf (stmts : List AStmt) : List (String × String) := stmts.filterMap stConstant
+
+/-- the state a read starts from: what the reset policy leaves of the previous state -/
+def startState (pol : ResetPolicy) (st : RState) : RState :=
+  { allParticles := if pol.allParticles then [] else st.allParticles,
+    finalParticles := if pol.finalParticles then [] else st.finalParticles,
+    cartesian := if pol.cartesian then false else st.cartesian }
+
+/-- the coupling interpretation: set by the coherent-sum option when present, else whatever the
+    class-level switch is at that moment -/
+def cartOf (st0 : RState) (stmts : List AStmt) : Bool :=
+  match stmts.filterMap stFcs with
+  | [n] => n != 0
+  | _ => st0.cartesian
+
 /-- `AmplitudeChain.read_ampgen` on the statement list -/
 def readAmpgen (pol : ResetPolicy) (lookup : String → Option String) (st : RState) (stmts : List AStmt) :
-    Except AmpErr (ReadOut × RState) := do
-  let ev ← match stmts.filterMap (fun | .eventType ns => some ns | _ => none) with
-    | [ns] => pure ns
-    | _ => throw .noEventType
-  let states ← ev.mapM (fun n => match lookup n with | some p => pure p | none => throw (.particleNotFound n))
-  let st0 : RState := { allParticles := if pol.allParticles then [] else st.allParticles,
-                        finalParticles := if pol.finalParticles then [] else st.finalParticles,
-                        cartesian := if pol.cartesian then false else st.cartesian }
-  let cart := match stmts.filterMap (fun | .fastCoherentSum n => some n | _ => none) with
-    | [n] => n != 0
-    | _ => st0.cartesian
-  let pars := stmts.filterMap (fun | .variable n f v e => some (n, decide (f > 0), v, e) | _ => none)
-  let consts := stmts.filterMap (fun | .constant n v => some (n, v) | _ => none)
-  let linesIn := stmts.filterMap (fun | .line l => some l | _ => none)
-  let built ← linesIn.mapM (chainOfLine lookup cart)
-  let lineArr := built.map (·.1)
-  let seen := (built.map (·.2)).flatten
-  let tops := lineArr.filter (fun l => some l.particle == states.head?)
-  let expanded ← tops.mapM (expandLines lineArr 64)
-  pure ({ eventType := states, parameters := pars, constants := consts, lines := (expanded.map (·.1)).flatten },
-        { allParticles := addSet st0.allParticles seen,
-          finalParticles := addSet st0.finalParticles (expanded.map (·.2)).flatten,
-          cartesian := cart })
+    Except AmpErr (ReadOut × RState) :=
+  match stmts.filterMap stEvent with
+  | [ev] =>
+    match ev.mapM (fun n => match lookup n with | some p => Except.ok p | none => Except.error (AmpErr.particleNotFound n)) with
+    | .error e => .error e
+    | .ok states =>
+      let st0 := startState pol st
+      let cart := cartOf st0 stmts
+      match (stmts.filterMap stLine).mapM (chainOfLine lookup cart) with
+      | .error e => .error e
+      | .ok built =>
+        let lineArr := built.map (·.1)
+        let tops := lineArr.filter (fun l => some l.particle == states.head?)
+        match tops.mapM (expandLines lineArr 64) with
+        | .error e => .error e
+        | .ok expanded =>
+          .ok ({ eventType := states, parameters := parsOf stmts, constants := constsOf stmts,
+                 lines := (expanded.map (·.1)).flatten },
+               { allParticles := addSet st0.allParticles (built.map (·.2)).flatten,
+                 finalParticles := addSet st0.finalParticles (expanded.map (·.2)).flatten,
+                 cartesian := cart })
+  | _ => .error .noEventType
 
 end DL
